@@ -219,15 +219,15 @@ def _configure():
         legs=[EXPLORE, INTERLEAVE, SQLCONF, HTTP])
     cfg("C02", "proof", ["A1", "A4", "A6", "A8", "A11", "A12", "A13"], assumptions=[A["A1"], A["A8"]], not_reached=[NR_SQL, NR_HTTP],
         explanation="postconditions av.accept_iff / av.accepted_state / av.rejected / av.id_from_v4 / av.ack_after_commit of the real Server::add_version, for every abstract pre-state satisfying chain_wf, every parent id, payload and placement of storage faults; enc.av for the HTTP entry point",
-        legs=[EXPLORE, SQLCONF, HTTP])
+        legs=[EXPLORE, SQLCONF, HTTP, INTERLEAVE])
     cfg("C03", "proof", ["A3", "A4", "A5", "A13"], assumptions=[A["A3"], A["A5"], "the reduction from interleavings to the three sequential obligations O1-O3 is a paper argument (DESIGN.md 5.C03), not machine-checked"],
         not_reached=["lock-wait budget / busy timeouts; anything inside SQLite or Mutex; partial overlap inside a transaction is excluded by A3/A5, not checked", NR_SQL],
         explanation="three sequential obligations: O1 every Server operation uses exactly one transaction opened for its own client (E9 twin + may_open); O2 every storage precondition in a handler is established inside the same transaction (Server::txn returns an arbitrary invariant-satisfying state); O3 effects reach durable state only through one commit and success is reported only after it",
-        legs=[INTERLEAVE, EXPLORE])
+        legs=[INTERLEAVE, EXPLORE, SQLCONF])
     cfg("C05", "proof", ["A4", "A5", "A6", "A13"], assumptions=[A["A5"]],
         not_reached=["error propagation inside sqlite/src/lib.rs itself (a swallowed rusqlite error there is invisible to Verus; the bounded fault leg injects faults at the StorageTxn boundary only)", NR_HTTP],
         explanation="the storage contract lets every call fail (fault counter); *.err_only_on_fault, av.err_atomic, *.ack_after_commit, *.drop_clean and enc.* (Other => 500) are proved for every placement of failures",
-        legs=[FAULTS, HTTP, STANDINS])
+        legs=[FAULTS, HTTP, STANDINS, SQLCONF])
     cfg("C06", "proof", ["A2", "A4", "A9", "A13"], not_reached=[NR_SQL, NR_HTTP],
         explanation="Seq<u8> equalities end to end: handler passes exactly the concatenation of the chunks for every chunking (body.loop.*), library stores and returns the same sequence (av.accepted_state, gcv.found, gs.pair), handlers put exactly those bytes in the response body (enc.*)",
         legs=[EXPLORE, SQLCONF, HTTP, STANDINS])
